@@ -580,12 +580,15 @@ class C13(Property):
     level_note = ("Trusted: Coq kernel + vm_compute; hand-written model (Go maps as association lists, map order and "
                   "rand.Shuffle as checked oracles); correspondence on generated histories only; the goroutines of one "
                   "cluster are modelled sequentially per watched key - three schedules of reload / Unmonitor against a watch "
-                  "goroutine are replayed by monitors, other interleavings are not explored; the etcd client is a hand-made fake; "
-                  "Publisher is not executed; the Kubernetes informer is the real one against an API-server stub in two monitors.")
+                  "goroutine are replayed by monitors, two free-running -race monitors watch the locking discipline, other interleavings "
+                  "are not explored; the etcd client is a hand-made fake (catch-up batches stamped with the current revision, honest "
+                  "progress headers); the Publisher is executed (its effect enters the model as etcd's history) but not modelled; "
+                  "the Kubernetes informer is the real one against an API-server stub in two monitors.")
     rule = ("six kinds of cases: container (direct OnAdd/OnDelete), discov (handleWatchEvents/handleChanges + several containers, "
             "exclusive or not, late joins, reloads), cluster (real Registry/cluster/Subscriber/discovBuilder on a fake etcd: 1..3 "
-            "watched keys incl. nested prefixes and exact match, subscribers in three modes coming and going, 8..50 ops with stream "
-            "faults, compaction, failing/stale Gets, reconnects), resolver (discovBuilder.Build end to end), subset, kube; 1..9 keys "
+            "watched keys incl. nested prefixes and exact match, subscribers in three modes coming and going, 8..90 ops with stream "
+            "faults, compaction, failing/stale Gets, reconnects, catch-up batches whose header revision is ahead + faults after any "
+            "batch, joins overlapping events, watcher generations, Publishers), resolver (discovBuilder.Build end to end), subset, kube; 1..9 keys "
             "over 1..5 values (resolver: up to 45 values), 5..60 events; non-trivial = a key changes its value and (discov/resolver) "
             "a reload snapshot occurs, (cluster) a subscriber exists and a fault occurs, (subset) the set is larger than the bound, "
             "(kube) an update changes the IP set; distinct = canonical JSON hash of the case")
@@ -594,7 +597,7 @@ class C13(Property):
         "four files are ADDED (none replaced) to core/discov and core/discov/internal at test-build time: two shims to reach cluster.handleWatchEvents/handleChanges, the fake etcd (EtcdClient) and the driver of the cluster kind",
         "cluster kind: the etcd client is a hand-made fake (revisions, history replay from WithRev, compaction error); quiescence is detected from channel lengths and goroutine stacks; the projection of etcd's history on a watched range is done in tools/props/c13.py",
         "map iteration order and rand.Shuffle enter the model as oracles observed on the implementation and validated by the model",
-        "interleavings of the cluster's goroutines are not modelled (three schedules replayed by monitors); Publisher not executed",
+        "interleavings of the cluster's goroutines are not modelled (four schedules replayed by monitors, two free-running -race monitors); the Publisher is executed but not modelled",
     ]
     assumptions = ["keys/values/IPs are compared with Go string == (model: Z)",
                    "listener calls of one watcher are sequential (one watch goroutine per key; handleChanges and handleWatchEvents do not overlap) - guaranteed by reload waiting for the previous generation, see F26/F28",
